@@ -75,4 +75,48 @@ void harness::run_case(const eng::Raw& raw, eng::Ctx& ctx)
 		ctx.fail("witness:empty", "witness automaton is empty although the language is not; A = " + V.str() + " witness = " + W.str());
 	ctx.count("witnesses_checked");
 	tc::expect_unchanged(ctx, "witness", a, V);
+
+	// --- along a short history on ONE object: the witness must belong to the CURRENT value, whatever was asked before
+	{
+		ref::TA cur = V;
+		VATA::ExplicitTreeAut x;
+		{ eng::LibSection ls(ctx, "history:copy"); x = a; }
+		// another automaton: one more accepted leaf and other final states
+		ref::TA other = V;
+		other.finals.clear();
+		for (int q : V.states()) if (gen::mix(c.header[6], static_cast<uint64_t>(q) + 9) % 2) other.finals.insert(q);
+		other.add(1 /* b */, {}, other.finals.empty() ? 0 : *other.finals.begin());
+		if (other.finals.empty()) other.finals.insert(0);
+		VATA::ExplicitTreeAut y;
+		{ eng::LibSection ls(ctx, "history:build-other"); y = lib::build(other); }
+		for (int stepNo = 0; stepNo < 6; ++stepNo) {
+			const uint32_t op = static_cast<uint32_t>(gen::mix(c.header[5], static_cast<uint64_t>(stepNo) + 40) % 7);
+			const char* names[] = {"query-only", "copy-assign-other", "copy-assign-original", "SetStateFinal", "EraseFinalStates", "AddTransition-leaf", "move-assign-other"};
+			{
+				eng::LibSection ls(ctx, std::string("history:") + names[op]);
+				switch (op) {
+					case 1: x = y; cur = other; break;
+					case 2: x = a; cur = V; break;
+					case 3: { auto p = cur.productive(); int q = p.empty() ? 0 : *p.rbegin(); x.SetStateFinal(static_cast<size_t>(q)); cur.finals.insert(q); break; }
+					case 4: x.EraseFinalStates(); cur.finals.clear(); break;
+					case 5: { int q = cur.finals.empty() ? 1 : *cur.finals.begin(); x.AddTransition({}, lib::sym_to_lib(x.GetAlphabet(), 2 /* c */), static_cast<size_t>(q)); cur.add(2, {}, q); break; }
+					case 6: { VATA::ExplicitTreeAut tmp(y); x = std::move(tmp); cur = other; break; }
+					default: break;
+				}
+			}
+			VATA::ExplicitTreeAut wx;
+			{ eng::LibSection ls(ctx, "history:GetCandidateTree"); wx = x.GetCandidateTree(); }
+			const ref::TA WX = lib::read(wx);
+			ref::InclResult rr = ref::included(WX, cur, tc::cap(ctx));
+			if (rr.verdict == ref::Tri::NO) {
+				ctx.fail("witness:history:not-sublanguage", "after step " + std::to_string(stepNo) + " (" + names[op] + ") the witness accepts " + ref::show(rr.witness) + " which the current automaton rejects; current " + cur.str());
+				break;
+			}
+			if (WX.empty_lang() && !cur.empty_lang()) {
+				ctx.fail("witness:history:empty", "after step " + std::to_string(stepNo) + " (" + names[op] + ") the witness is empty although the current language is not; current " + cur.str());
+				break;
+			}
+			ctx.count("history_witnesses");
+		}
+	}
 }
